@@ -94,9 +94,11 @@ def run_real(case: Case, rng, want_finds: bool = True) -> None:
                 parsed = cons[0]
         except Exception as e:  # noqa: BLE001
             msg = f"{type(e).__name__}: {str(e)[:200]}"
-            if type(e).__name__ == "FandangoValueError" and (" has no child " in str(e) or "undefined symbol" in str(e)):
+            if (type(e).__name__ == "FandangoValueError" and (" has no child " in str(e) or "undefined symbol" in str(e))) \
+                    or type(e).__name__ == "RecursionError":
                 # the front end's static plausibility check (parse.check_constraints_existence) refuses the
                 # spec: no constraint object exists, nothing to compare (counted)
+                # (RecursionError: the same check recursing forever over a recursive grammar with `..`)
                 case.front_end_rejected = msg
             else:
                 case.front_end_error = msg
@@ -412,7 +414,8 @@ def process(run: Run, cases: list[Case], rng, corr: list, stats: dict) -> None:
             corr.append({"kind": "front-end", "grammar": c.gtext, "text": c.text, "error": c.front_end_error,
                          "program": c.program})
         if c.text_lazy is not None:
-            run.count("front_end:rejected_by_static_check" if c.front_end_rejected else "front_end:accepted")
+            run.count(("front_end:static_check_crashed" if "RecursionError" in c.front_end_rejected
+                       else "front_end:rejected_by_static_check") if c.front_end_rejected else "front_end:accepted")
         facts = judge(run, c, answers[a:b], corr)
         vs = facts["verdicts"]
         kinds = G.kinds_of(c.program)
